@@ -100,7 +100,7 @@ func c07Race(c *Ctx) {
 			bad("innerFn must be called exactly once, after the timer was armed, with the cancellable child execution")
 			continue
 		}
-		if cas == nil || cas.Idx < in.Idx || cas.Recv.Op != "alloc" || !cas.Args[0].IsNilConst() || cas.Args[1] != in.Res[0] {
+		if cas == nil || cas.Idx < in.Idx || !perInvocation(cas.Recv, apply) || !cas.Args[0].IsNilConst() || cas.Args[1] != in.Res[0] {
 			bad("the inner result must be published by CompareAndSwap(nil, inner result) on the per-attempt result pointer")
 			continue
 		}
@@ -144,10 +144,26 @@ func c07Race(c *Ctx) {
 	}
 }
 
+// perInvocation: the address is (a field of) an object allocated by the returned closure or what it calls, not by
+// Apply itself (which would share it between invocations).
+func perInvocation(addr *T, apply *ssa.Function) bool {
+	for i := 0; addr != nil && addr.Op == "faddr" && i < 4; i++ {
+		addr = addr.Args[0]
+	}
+	if addr == nil || addr.Op != "alloc" {
+		return false
+	}
+	if addr.Site != nil && addr.Site.Parent() == apply {
+		return false
+	}
+	return true
+}
+
 func c07Callback(c *Ctx, ev *Evaluator, af *Event, ptr, child, listener *T, name, pos string) bool {
 	ts := ev.TS
 	cb := af.Args[1]
-	name = c.fn(cb.Fn)
+	cbFn := c.P.TargetOf(cb.Fn)
+	name = c.fn(cbFn)
 	qs := ev.CallTerm(af.Snap, cb, nil)
 	if ev.Err != nil || len(qs) == 0 {
 		c.Undecided(name, pos, fmt.Sprintf("callback evaluation failed: %v", ev.Err), "")
@@ -158,7 +174,7 @@ func c07Callback(c *Ctx, ev *Evaluator, af *Event, ptr, child, listener *T, name
 	for _, q := range qs {
 		bad := func(msg string) {
 			ok = false
-			c.Fail(name, c.P.FuncPos(cb.Fn), msg, pathTrace(ev, q))
+			c.Fail(name, c.P.FuncPos(cbFn), msg, pathTrace(ev, q))
 		}
 		evs := q.Events()[q.Base:]
 		var cas *Event
@@ -218,10 +234,10 @@ func c07Callback(c *Ctx, ev *Evaluator, af *Event, ptr, child, listener *T, name
 	}
 	if ok && !(seen[triT] && seen[triF]) {
 		ok = false
-		c.Fail(name, c.P.FuncPos(cb.Fn), "callback lacks the won or lost case", "")
+		c.Fail(name, c.P.FuncPos(cbFn), "callback lacks the won or lost case", "")
 	}
 	if ok {
-		c.Ok(name, c.P.FuncPos(cb.Fn), "CAS(nil, FailureResult(ErrExceeded)); won ⇒ listener once then child.Cancel(timeout result) once; lost ⇒ nothing")
+		c.Ok(name, c.P.FuncPos(cbFn), "CAS(nil, FailureResult(ErrExceeded)); won ⇒ listener once then child.Cancel(timeout result) once; lost ⇒ nothing")
 	}
 	return ok
 }
@@ -282,6 +298,35 @@ func c07ErrOwner(c *Ctx) {
 	c.Rule("err-owner")
 	n := 0
 	ok := true
+	ix := BuildIndex(c.P)
+	// the timer callbacks of the package: functions handed to time.AfterFunc (closures or bound methods); they run
+	// only when the timer fires, provided nothing calls them directly
+	callbacks := map[*ssa.Function]bool{}
+	for _, fn := range c.P.Funcs {
+		if fn.Pkg == nil || fn.Pkg.Pkg.Name() != "timeout" {
+			continue
+		}
+		for _, b := range fn.Blocks {
+			for _, in := range b.Instrs {
+				call, isCall := in.(*ssa.Call)
+				if !isCall {
+					continue
+				}
+				if cal := calleeOf(&call.Call); cal == nil || qualName(cal) != "time.AfterFunc" || len(call.Call.Args) != 2 {
+					continue
+				}
+				if t := ix.resolveFnValue(call.Call.Args[1]); t != nil {
+					callbacks[t] = true
+				}
+			}
+		}
+	}
+	for cb := range callbacks {
+		if len(ix.Callers[cb]) > 0 {
+			ok = false
+			c.Fail(c.fn(cb)+"#direct-call", c.P.FuncPos(cb), "the timer callback is also called directly by "+c.fn(ix.Callers[cb][0])+": the timeout result could be produced before the limit elapsed", "")
+		}
+	}
 	for _, fn := range c.P.Funcs {
 		if fn.Pkg == nil || fn.Pkg.Pkg.Name() != "timeout" {
 			continue
@@ -295,7 +340,7 @@ func c07ErrOwner(c *Ctx) {
 					}
 					n++
 					name := c.fn(fn)
-					isCallback := fn.Parent() != nil && fn.Parent().Parent() != nil && fn.Parent().Parent().Name() == "Apply"
+					isCallback := ix.Within(fn, func(f *ssa.Function) bool { return callbacks[f] })
 					if !(isCallback || fn.Name() == "IsFailure" || fn.Name() == "init") {
 						ok = false
 						c.Fail(name, c.P.Pos(in.Pos()), "timeout.ErrExceeded is referenced outside the timer callback and IsFailure: it could be produced before the limit elapsed", "")
@@ -448,7 +493,7 @@ func c09Loop(c *Ctx) {
 			}
 			x := cp.Res[0]
 			attempts = append(attempts, x)
-			if g.FnTerm == nil || g.FnTerm.Op != "closure" || len(g.Args) != 2 || g.Args[0] != x {
+			if ev.EventFn(g) == nil || len(g.Args) != 2 || g.Args[0] != x {
 				fail(p, g, "the attempt goroutine must receive its own execution copy")
 				bad = true
 				break
@@ -638,11 +683,22 @@ func c09Loop(c *Ctx) {
 func c09Attempt(c *Ctx, ev *Evaluator, g *Event, innerFn, maxHedges, resultChan *T) {
 	c.Rule("attempt")
 	ts := ev.TS
-	cl := g.FnTerm
-	name, pos := c.fn(cl.Fn), c.P.FuncPos(cl.Fn)
-	hx := ts.intern(&T{Op: "param", Aux: "hedgeExec", Typ: cl.Fn.Params[0].Type()})
-	idx := ts.intern(&T{Op: "param", Aux: "execIdx", Typ: cl.Fn.Params[1].Type()})
-	qs := ev.CallTerm(g.Snap, cl, []*T{hx, idx})
+	afn := ev.EventFn(g)
+	if afn == nil || len(afn.Params) < 2 {
+		c.Undecided("hedgepolicy.(*executor).Apply$1$1", "", "attempt goroutine not resolvable", "")
+		return
+	}
+	name, pos := "hedgepolicy.(*executor).Apply$1$1", c.P.FuncPos(afn) // the attempt goroutine, closure or method
+	np := len(afn.Params)
+	hx := ts.intern(&T{Op: "param", Aux: "hedgeExec", Typ: afn.Params[np-2].Type()})
+	idx := ts.intern(&T{Op: "param", Aux: "execIdx", Typ: afn.Params[np-1].Type()})
+	qs := ev.RunEvent(g.Snap, g, []*T{hx, idx})
+	fresh := func(t *T) bool {
+		for i := 0; t != nil && t.Op == "faddr" && i < 4; i++ {
+			t = t.Args[0]
+		}
+		return t != nil && t.Op == "alloc"
+	}
 	if ev.Err != nil || len(qs) == 0 {
 		c.Undecided(name, pos, fmt.Sprintf("evaluation failed: %v", ev.Err), "")
 		return
@@ -664,10 +720,10 @@ func c09Attempt(c *Ctx, ev *Evaluator, g *Event, innerFn, maxHedges, resultChan 
 			case isDynCall(e, innerFn):
 				in = e
 				nIn++
-			case isCall(e, "Add") && e.Recv.Op == "alloc":
+			case isCall(e, "Add") && fresh(e.Recv):
 				add = e
 				nAdd++
-			case isCall(e, "CompareAndSwap") && e.Recv.Op == "alloc":
+			case isCall(e, "CompareAndSwap") && fresh(e.Recv):
 				cas = e
 				nCas++
 			case e.Kind == EvSend:
@@ -675,7 +731,7 @@ func c09Attempt(c *Ctx, ev *Evaluator, g *Event, innerFn, maxHedges, resultChan 
 				nSend++
 			case isCall(e, "IsAbortable"):
 				abortable = e.Res[0]
-			case isCall(e, "Store") && e.Recv != nil && e.Recv.Op == "alloc":
+			case isCall(e, "Store") && e.Recv != nil && fresh(e.Recv):
 				bad("an atomic guarding the result hand-off is overwritten (it must only move from unset to set once)")
 			case e.Kind == EvRecv || e.Kind == EvSelect:
 				bad("the attempt goroutine blocks on a channel operation other than its single send")
